@@ -50,6 +50,61 @@ theorem recv_timeout_bounds (ls : List Label) (s : State) (h : runZL {} ls = som
       T - slackNs < r.retTime - r.callStart ∧ r.retTime - r.callStart < 2 * T :=
   recv_timeout_bounds_inv ls s h
 
+theorem run_snoc (ks : List Label) (a m b : State) (l : Label)
+    (hk : run a ks = some m) (hl : step m l = some b) : run a (ks ++ [l]) = some b := by
+  induction ks generalizing a with
+  | nil =>
+    simp only [run, Option.some.injEq] at hk
+    subst hk
+    simp only [List.nil_append, run, hl]
+  | cons k ks ih =>
+    simp only [run] at hk
+    cases h1 : step a k with
+    | none => rw [h1] at hk; cases hk
+    | some a1 =>
+      rw [h1] at hk
+      simp only [List.cons_append, run, h1]
+      exact ih a1 hk
+
+/-- a zero-latency execution is an execution. -/
+theorem runZL_reachable (ls : List Label) (s : State) (h : runZL {} ls = some s) : Reachable s := by
+  have key : ∀ ls (a b : State), Reachable a → runZL a ls = some b → Reachable b :=
+    runZL_inv (Inv := Reachable) (by
+      intro a l b ⟨ks, hk⟩ hst
+      exact ⟨ks ++ [l], run_snoc ks {} a b l hk (stepZL_step hst).1⟩)
+  exact key ls {} s ⟨[], rfl⟩ h
+
+/-- Promptness of `unblock` (and of every push): in a zero-latency execution time can only advance
+    while no receiver is runnable; if at such a moment some receiver is still waiting, then the
+    queue holds neither a request nor a token — every unblock issued so far has already made a
+    receive call return empty-handed (`tokensTaken = tokensPushed`, and by `token_conservation`
+    that many calls returned `byToken`).  So an unblock issued while receivers wait releases one
+    of them at the very instant it is issued, or nobody is left waiting. -/
+theorem unblock_released_before_time_passes (ls : List Label) (s s' : State) (d : Nat)
+    (h : runZL {} ls = some s) (ht : stepZL s (.tick d) = some s') (hw : 0 < countP s isWaiting) :
+    s.queue = [] ∧ s.tokensTaken = s.tokensPushed := by
+  have hr := runZL_reachable ls s h
+  have hk : tickOk s d = true := (stepZL_step ht).2 d rfl
+  have hrun : countP s isRunnable = 0 := by
+    unfold countP
+    apply any_false_filter_length
+    simp only [tickOk, Bool.and_eq_true, Bool.not_eq_true'] at hk
+    exact hk.1
+  have hq : s.queue = [] := by
+    have := no_lost_wakeup_inv s hr hw
+    rw [hrun] at this
+    exact List.length_eq_zero_iff.mp (Nat.le_zero.mp this)
+  refine ⟨hq, ?_⟩
+  have := (token_conservation_inv s hr).1
+  rw [hq] at this
+  simpa [tokens] using this.symm
+
+/-- non-vacuity: a receiver waits, an unblock arrives; time cannot pass before the receiver has
+    returned (the `tick` is refused), and passes afterwards. -/
+example : (runZL {} [.call 0 .pop, .look 0, .call 1 .pop, .look 1, .tick 5, .unblock (some 0), .tick 1]) = none
+    ∧ ((runZL {} [.call 0 .pop, .look 0, .call 1 .pop, .look 1, .tick 5, .unblock (some 0), .look 0, .tick 1]).map
+        (fun s => (s.log.map (·.res), s.log.map (·.retTime), countP s isWaiting))) = some ([.byToken], [5], 1) := by decide
+
 example : (run {} [.call 0 .pop, .look 0, .unblock (some 0), .push 5 none, .look 0]).map
     (fun s => (s.log.map (·.res), elems s.queue, s.tokensTaken)) = some ([.byToken], [5], 1) := by decide
 
